@@ -66,6 +66,13 @@ func (s SA) GetName() string        { return s.Name }
 func (s *SA) Title() string         { return s.Name }
 func (s SA) Risky() (string, error) { return s.Name, nil }
 func (s SA) Inner() InA             { return s.In }
+func (s *SA) Reset()                {}
+func (s SA) Pair() (int, string)    { return s.ID, s.Name }
+func (s SA) Triple() (int, int, error) { return 0, 0, nil }
+func (s SA) ErrOnly() error         { return nil }
+func (s SA) WithArg(n int) int      { return n }
+func (s SA) Variadic(n ...int) int  { return len(n) }
+func (s SA) FuncResult() func() int { return nil }
 
 type DA struct {
 	ID    int
